@@ -6,17 +6,17 @@ section of the confirmation log that belongs to this change (suite result with t
 the changed and on the clean tree, what each /verif check said when run against the changed tree)."""
 import json, os, re, shutil, sys
 
-prop, idx, mutdir, conflog = sys.argv[1:5]
+prop, idx, mutdir, conflog = sys.argv[1:5]      # idx: a, b, ... (one letter per independent sub-agent)
 note = sys.argv[sys.argv.index("--note") + 1] if "--note" in sys.argv else ""
 root = os.path.dirname(os.path.dirname(os.path.abspath(__file__)))
-dst = os.path.join(root, "seeded", f"{prop}-m{idx}")
+dst = os.path.join(root, "seeded", f"{prop}-{idx}")
 os.makedirs(dst, exist_ok=True)
-for f in ("patch.diff", "demo.rs", "demo_output.txt", "README.md"):
+for f in ("patch.diff", "demo.diff", "demo_cmd.txt", "demo_output.txt", "README.md"):
     p = os.path.join(mutdir, f)
     if os.path.exists(p):
         shutil.copy(p, os.path.join(dst, f))
 text = open(conflog, errors="replace").read()
-m = re.search(r"#{8} %s m%s\n(.*?)(?=\n#{8} |\Z)" % (prop, idx), text, re.S)
+m = re.search(r"#{8} %s-%s\n(.*?)(?=\n#{8} |\Z)" % (prop, idx), text, re.S)
 sec = m.group(1) if m else ""
 suite = re.search(r"== suite with mutation\n(test result: [^\n]*)", sec)
 demo_mut = re.search(r"== demo with mutation[^\n]*\n((?:test [^\n]*\n)+)", sec)
@@ -38,12 +38,12 @@ for line in sec.splitlines():
 readme = open(os.path.join(mutdir, "README.md"), errors="replace").read() if os.path.exists(os.path.join(mutdir, "README.md")) else ""
 files = sorted(set(re.findall(r"^\+\+\+ b/(\S+)", open(os.path.join(mutdir, "patch.diff")).read(), re.M)))
 meta = {
-    "id": f"{prop}-m{idx}", "property": prop, "files": files,
+    "id": f"{prop}-{idx}", "property": prop, "files": files,
     "origin": "fresh sub-agent given only the property text and a scratch worktree of /repo",
     "confirmed": {
         "applies_and_compiles": bool(suite),
         "suite_with_change": suite.group(1) if suite else None,
-        "hooks_on_cargo_check": "ok" if "Finished" in sec else "see log",
+        "hooks_on_cargo_check": "ok" if re.search(r"== check guard on\n[^=]*Finished", sec) else "see log",
         "demo_with_change": demo_mut.group(1).strip().splitlines() if demo_mut else None,
         "demo_on_clean_tree": demo_clean.group(1).strip().splitlines() if demo_clean else None,
     },
